@@ -151,7 +151,7 @@ func (l *ledger) send() {
 		if sp.Token != nil && len(ps) == 1 {
 			after := l.balance(sp.Src, tokAddr, sp.User.Eth)
 			exp := new(big.Int).Sub(before, sp.Amount)
-			if sameToken(sp.FeeToken, sp.Token) && sp.FeeAmount != nil {
+			if sameToken(sp.FeeToken, sp.Token, sp.Src) && sp.FeeAmount != nil {
 				exp.Sub(exp, sp.FeeAmount)
 			}
 			if after.Cmp(exp) != 0 {
@@ -164,11 +164,17 @@ func (l *ledger) send() {
 	l.check("send "+sp.Describe(), o)
 }
 
-func sameToken(a, b *core.Token) bool {
-	if a == nil { // native fee
-		return b != nil && b.Addr == core.ZeroAddr
+// sameToken reports whether the fee is paid in the same asset as the transfer on the source chain
+// (a nil fee token is the source chain's native coin).
+func sameToken(fee, tok *core.Token, src *core.Node) bool {
+	if tok == nil {
+		return false
 	}
-	return a == b
+	feeAddr := core.ZeroAddr
+	if fee != nil {
+		feeAddr = fee.AddrOn(src)
+	}
+	return feeAddr == tok.AddrOn(src)
 }
 
 // balance of holder in a token representation on n (native coin when addr is zero).
